@@ -125,7 +125,9 @@ def gen_C13(ctx):
 def gen_C08(ctx):
     out = []
     base = st_conformance(["P"]) + st_spellings(ctx, ctx.n(5000, 400000), ["P"], "c08-spell", typed_known=True, group=1) \
-        + st_malformed(ctx, ctx.n(2000, 100000), ["P"], "c08-mal") + st_classes(ctx, ["P"], "c08-cls")
+        + st_malformed(ctx, ctx.n(2000, 100000), ["P"], "c08-mal") + st_classes(ctx, ["P"], "c08-cls") \
+        + [case("parse P " + hx(s_), "spec-types", s=s_, shape="P") for t_ in SPEC_TYPES + ["rubygem", "gems", "crate", "mvn", "go-lang", "py.pi"]
+           for s_ in ("pkg:%s/ns/name@1.0" % t_, "pkg:%s/name" % t_.upper())]
     for c in base:
         g = dict(c)
         g["req"] = c["req"].replace("parse P ", "parse S ", 1)
@@ -283,6 +285,7 @@ def gen_C15(ctx):
     out = st_ptype_exhaustive()
     out += st_ptype_near(ctx, ctx.n(4000, 500000), "c15-near")
     out += st_ptype_short(3 if ctx.tier == "quick" else 5)
+    out += st_ptype_escaped()
     return out
 
 
@@ -346,6 +349,13 @@ def gen_C16(ctx):
             out.append(case("serde %s de %s" % (sh, hx(doc)), "de-other", doc=doc, shape=sh))
     for ident in IDENTS:
         out.append(case("serde P pt %s" % ident, "pt", ident=ident))
+    # long string values: the deserialiser has no limit of its own (64 KiB boundary, 1 MiB in the thorough tier)
+    import json as _j
+    for L in [65000, 65535, 65536, 65537, 70000] + ([1 << 20] if ctx.tier == "thorough" else []):
+        for s in ("pkg:cargo/" + "a" * (L - 10), "pkg:t/n?download_url=https://e.com/" + "x" * (L - 35), "pkg:t/" + "%41" * ((L - 6) // 3)):
+            for sh in ("S", "P"):
+                out.append(case("parsel %s %s" % (sh, hx(s)), "de-reference-long", s=s[:40], shape=sh, nomodel=True))
+                out.append(case("serde %s delen %s" % (sh, hx(s)), "de-long", s=s[:40], shape=sh, reference=len(out) - 1, nomodel=True))
     # values of serde's data model that are not JSON (serde::de::value deserializers): only string values may be
     # accepted, exactly like parsing; byte strings that spell a PURL, chars, numbers, units, sequences are refused
     sample = strings[::max(1, len(strings) // (400 if ctx.tier == "quick" else 20000))] + ["pkg:npm/foo@1.0", "pkg:t/n", "p", ""]
